@@ -5,6 +5,7 @@ import (
 	"go/token"
 	"go/types"
 	"sort"
+	"strings"
 
 	"golang.org/x/tools/go/ssa"
 
@@ -351,7 +352,7 @@ func runC09(c *Ctx) {
 		zero := find(fn, binops(eqOps, fromField(wOut), func(v ssa.Value) bool {
 			return ir.DerivesFrom(v, func(x ssa.Value) bool {
 				g, ok := x.(*ssa.Global)
-				return ok && g.Name() == "zeroOutPoint"
+				return ok && c.globalNeverWritten(g) && isWireOutPointPtr(g.Type())
 			})
 		}))
 		cut := equalIs("input.OutPoint == zeroOutPoint", zero, true).cut()
@@ -539,4 +540,15 @@ func isLoadOfPath(v ssa.Value, path ...*types.Var) bool {
 		cur = fa.X
 	}
 	return true
+}
+
+// isWireOutPointPtr: *wire.OutPoint (the type of the address of a package
+// variable holding an outpoint).
+func isWireOutPointPtr(t types.Type) bool {
+	p, ok := t.(*types.Pointer)
+	if !ok {
+		return false
+	}
+	n, ok := p.Elem().(*types.Named)
+	return ok && n.Obj().Name() == "OutPoint" && n.Obj().Pkg() != nil && strings.Contains(n.Obj().Pkg().Path(), "btcd/wire")
 }
